@@ -137,7 +137,10 @@ impl FinalityTracker {
     /// Returns a [`FinalizationEvent`] that contains information about newly finalized slots.
     pub(super) fn mark_fast_finalized(&mut self, block: BlockId) -> FinalizationEvent {
         let (slot, block_hash) = &block;
-        debug_assert!(*slot >= self.first_unpruned_slot);
+        // NOTE: A single notar vote can complete the notarization and the fast-finalization
+        // certificate of a slot at once. If the finalization certificate is already held,
+        // handling the former finalizes the slot and may move the watermark past it,
+        // so a slot below the watermark is legitimate here and simply already decided.
         if *slot < self.first_unpruned_slot {
             return FinalizationEvent::default();
         }
